@@ -33,8 +33,9 @@ RULE = ("cases = heap (1..5 nodes quick / ..6 thorough: attrs instances of 1..3 
         "random edges, so self-references and cycles through containers and other instances are the norm) x per class "
         "(1..3 inheritance layers, per-field repr in {True, False, callable(tag, recursing or not)} x init x set/unset, "
         "nesting of the class statement in functions/classes, plain runtime subclass (optionally overriding __repr__ around super's), repr_ns, str=True on leaf or base, "
-        "plain base with own __str__) x cfg (attr.s/define/mutable/frozen, slots, defaults; ancestors local to the same scopes or "
-        "at module level; class-level history: nothing rendered before / an instance of every ancestor rendered first / the "
+        "plain base with own __str__) x cfg (attr.s/define/mutable/frozen, slots, defaults; ancestors defined in the same scope as the runtime class, in any "
+        "enclosing scope of it (so its scope chain extends theirs), at module level or in a sibling function; the runtime "
+        "subclass plain, attrs with repr=False (inherits the generated repr) or overriding; class-level history: nothing rendered before / an instance of every ancestor rendered first / the "
         "runtime class first; repr callables with per-field, shared (`fmt`) or functools.wraps'd `__name__`) x fresh/warm thread x a fault "
         "(before/after rendering) in one callable x thread scenario (0, 2, 3 threads meeting at a barrier inside a callable). "
         "A structured block enumerates cycle shapes x field kinds x every callable fault position first. Non-trivial = "
@@ -186,27 +187,48 @@ def qualname_of(cls_spec):
     return "".join(s["name"] + (".<locals>." if s["fn"] else ".") for s in cls_spec["scopes"]) + cls_spec["name"]
 
 
-def _nested_source(scopes, outer_stmts, inner_stmts, result):
-    """source text: `outer_stmts` at module level, `inner_stmts` inside `scopes`; a statement is
-    (decorator name | None, class name, base expression, body lines); `result` names the class to return"""
+def _nested_source(scopes, placed, sibling_stmts, result):
+    """source text of a chain of class statements spread over a nest of scopes.  `placed[k]` are the statements
+    written inside the first k scopes (k = 0: module level, k = len(scopes): next to the runtime class, in between:
+    the runtime class's scope chain EXTENDS the scope chain of those classes); `sibling_stmts` go into a separate
+    module-level function `sib`.  A statement is (decorator name | None, class name, base expression, body lines);
+    bases are reached through the global registry `_reg`, so any placement resolves."""
     def stmt(st, pad):
         deco, name, base, body = st
         lines = [pad + "@" + deco] if deco else []
         lines.append(pad + f"class {name}({base}):")
         return lines + [pad + "    " + ln for ln in (body or ["pass"])]
 
-    def rec(sc, ind):
+    def rec(k, ind):
         pad = "    " * ind
-        if not sc:
-            return [ln for st in inner_stmts for ln in stmt(st, pad)], result
-        s = sc[0]
-        inner, expr = rec(sc[1:], ind + 1)
-        if s["fn"]:
-            return [pad + f"def {s['name']}():"] + inner + [pad + f"    return {expr}"], f"{s['name']}()"
-        return [pad + f"class {s['name']}:"] + inner, f"{s['name']}.{expr}"
+        here = [ln for st in placed.get(k, []) for ln in stmt(st, pad)]
+        if k == len(scopes):
+            return here, result
+        sc = scopes[k]
+        inner, expr = rec(k + 1, ind + 1)
+        if sc["fn"]:
+            return here + [pad + f"def {sc['name']}():"] + inner + [pad + f"    return {expr}"], f"{sc['name']}()"
+        return here + [pad + f"class {sc['name']}:"] + inner, f"{sc['name']}.{expr}"
 
-    lines, expr = rec(scopes, 0)
-    return [ln for st in outer_stmts for ln in stmt(st, "")] + lines + [f"_result = {expr}"]
+    lines, expr = rec(0, 0)
+    sib = []
+    if sibling_stmts:
+        sib = ["def sib():"] + [ln for st in sibling_stmts for ln in stmt(st, "    ")] + ["sib()"]
+    return sib + lines + [f"_result = {expr}"]
+
+
+def base_depth(cs):
+    """how many leading scopes of the runtime class the ancestors share with it, or "sibling" """
+    cfg = cs.get("cfg", {})
+    n = len(cs["scopes"])
+    place = cfg.get("basePlace", "same" if cfg.get("localBases", True) else "module")
+    if place == "same":
+        return n
+    if place == "module":
+        return 0
+    if place == "sibling":
+        return "sibling"
+    return min(int(place), n)
 
 
 _FAULT_RE = re.compile(r'"fault": "(?:pre|post)"')
@@ -254,23 +276,46 @@ def build_class(cs, occurrence=0):
                 return d(**kw)(c)
         return deco
 
-    # the whole chain is written as class statements: the ancestors either next to the runtime class (inside
-    # the same functions/classes, so they are local classes too) or at module level
-    glob = {"_root": PlainRoot if cs["plainStr"] else object, "__name__": "c11_synthetic"}
+    # the whole chain is written as class statements; the runtime class sits inside all of `scopes`, its ancestors
+    # at `base_depth` (same scope / an enclosing scope / module level / a sibling function)
+    reg = {}
+    glob = {"_root": PlainRoot if cs["plainStr"] else object, "__name__": "c11_synthetic", "_reg": reg}
+
+    def registering(d):
+        def deco(c):
+            c = d(c)
+            reg[c.__name__] = c
+            return c
+        return deco
+
     stmts, base = [], "_root"
     attrs_names = [f"Base{i}" for i in range(n - 1)] + ["Leaf" if plain_sub else cs["name"]]
     for i, layer in enumerate(layers):
-        glob[f"_deco{i}"] = deco_for(i)
+        glob[f"_deco{i}"] = registering(deco_for(i))
         glob[f"_mk{i}"] = {f["name"]: (lambda f=f: _ib(f, cfg, cbs)) for f in layer}
         stmts.append((f"_deco{i}", attrs_names[i], base, [f"{f['name']} = _mk{i}[{f['name']!r}]()" for f in layer]))
-        base = attrs_names[i]
+        base = f"_reg[{attrs_names[i]!r}]"
     if plain_sub:
         body = ["def __repr__(self):", "    return 'OVR<' + super().__repr__() + '>'"] if cs["ovr"] else []
-        stmts.append((None, cs["name"], base, body))
-    if cfg.get("localBases", True):
-        src = _nested_source(cs["scopes"], [], stmts, cs["name"])
+        deco = None
+        if cfg.get("subKind", "plain") == "norepr":
+            # an attrs subclass that does not get a repr of its own: it inherits the generated one, and its own
+            # field is not listed
+            kw = {"repr": False}
+            if cfg.get("slots") is not None:
+                kw["slots"] = cfg["slots"]
+            glob["_deco_sub"] = lambda c: _DECOS[api](**kw)(c)
+            glob["_mk_sub"] = lambda: attr.ib(default=0)
+            deco, body = "_deco_sub", ["zz_extra = _mk_sub()"] + body
+        stmts.append((deco, cs["name"], base, body))
+    depth = base_depth(cs)
+    nsc = len(cs["scopes"])
+    if depth == "sibling":
+        src = _nested_source(cs["scopes"], {nsc: stmts[-1:]}, stmts[:-1], cs["name"])
+    elif depth == nsc:
+        src = _nested_source(cs["scopes"], {nsc: stmts}, [], cs["name"])
     else:
-        src = _nested_source(cs["scopes"], stmts[:-1], stmts[-1:], cs["name"])
+        src = _nested_source(cs["scopes"], {depth: stmts[:-1], nsc: stmts[-1:]}, [], cs["name"])
     exec(compile("\n".join(src), "<c11 class>", "exec"), glob)  # noqa: S102
     cls = glob["_result"]
     if cls.__qualname__ != qualname_of(cs):
@@ -489,10 +534,13 @@ SCOPES = [
     [{"name": "Outer", "fn": False}, {"name": "Inner", "fn": False}],
     [{"name": "mk", "fn": True}, {"name": "Outer", "fn": False}, {"name": "Inner", "fn": False}],
     [{"name": "Outer", "fn": False}, {"name": "meth", "fn": True}, {"name": "Inner", "fn": False}],
+    [{"name": "mk", "fn": True}, {"name": "Outer", "fn": False}, {"name": "meth", "fn": True}],
+    [{"name": "mk", "fn": True}, {"name": "inner", "fn": True}, {"name": "deep", "fn": True}],
+    [{"name": "mk", "fn": True}, {"name": "inner", "fn": True}, {"name": "Outer", "fn": False}],
 ]
 CLS_NAMES = ["C", "D", "Node", "Pt"]
 BASE_CFG = {"api": "attr.s", "slots": None, "frozen": False, "plainSub": False, "strAt": 9, "dflt": [], "explicit_true": False,
-            "pre": "none", "cbNames": "field", "localBases": True}
+            "pre": "none", "cbNames": "field", "basePlace": "same", "subKind": "plain"}
 
 
 def rand_cfg(rng, names):
@@ -506,7 +554,8 @@ def rand_cfg(rng, names):
         "explicit_true": rng.random() < 0.5,
         "pre": rng.choice(["none", "none", "bases_first", "bases_first", "sub_first"]),
         "cbNames": rng.choice(["field", "same", "same", "wraps"]),
-        "localBases": rng.random() < 0.7,
+        "basePlace": rng.choice(["same", "same", "same", "module", "sibling", 0, 1, 1, 2, 2]),
+        "subKind": rng.choice(["plain", "plain", "norepr"]),
     }
 
 
@@ -651,13 +700,29 @@ def structured(rng):
             cs["ovr"] = plain_sub == "ovr"
             cs["cfg"]["strAt"] = rng.choice([0, 9])
             cs["cfg"]["slots"] = rng.choice([None, True])
-            for pre, local in (("none", True), ("bases_first", True), ("sub_first", True), ("bases_first", False)):
+            for pre, place in (("none", "same"), ("bases_first", "same"), ("sub_first", "same"), ("bases_first", "module")):
                 if pre != "none" and nl == 1 and not plain_sub:
                     continue          # a single class has no ancestor to render first
                 cs2 = copy.deepcopy(cs)
-                cs2["cfg"]["pre"], cs2["cfg"]["localBases"] = pre, local
+                cs2["cfg"]["pre"], cs2["cfg"]["basePlace"] = pre, place
                 heap = {"classes": [cs2], "nodes": [{"inst": {"cls": 0, "vals": [["a", 0]]}}]}
                 yield mk_case(heap, 0, rng.random() < 0.5)
+    # where the runtime (sub)class is defined relative to its ancestors: same scope, every enclosing depth (its
+    # scope chain extends theirs), module level, a sibling function -- for subclasses that inherit the repr
+    # (plain, attrs with repr=False, overriding) and for attrs subclasses with their own
+    for sc in SCOPES[3:]:
+        for place in ["sibling"] + list(range(len(sc) + 1)):
+            for kind in ("plain", "norepr", "ovr", "attrs"):
+                for st in (False, True):
+                    fs = [{"name": "a", "repr": "on", "init": True}, {"name": "b", "repr": "on", "init": True}]
+                    cs = _simple_class([], scopes=copy.deepcopy(sc), str=st, plainStr=st, name="Sub")
+                    cs["layers"] = [fs[:1], fs[1:]]
+                    cs["cfg"].update(plainSub=kind != "attrs", subKind="norepr" if kind == "norepr" else "plain",
+                                     basePlace=place, slots=rng.choice([None, True]),
+                                     api=rng.choice(["attr.s", "define"]))
+                    cs["ovr"] = kind == "ovr"
+                    heap = {"classes": [cs], "nodes": [{"inst": {"cls": 0, "vals": [["a", 0], ["b", 0]]}}]}
+                    yield mk_case(heap, 0, rng.random() < 0.5)
     # callables that share a __name__: own + own, inherited + own, three of them
     for mode, nl, slots in itertools.product(("same", "wraps", "field"), (1, 2, 3), (None, True)):
         fs = [{"name": n, "repr": {"call": {"tag": "R" + n, "recurse": rc, "fault": "no"}}, "init": True}
@@ -701,6 +766,11 @@ def nontrivial(case, model):
     return "..." in txt or "exc" in txt or "NOTHING" in txt or bool(callable_slots(case["heap"]))
 
 
+def _place_kind(cs):
+    d, n = base_depth(cs), len(cs["scopes"])
+    return "sibling" if d == "sibling" else "same" if d == n else "module" if d == 0 else "enclosing"
+
+
 def _root_cls(case):
     nd = case["heap"]["nodes"][case["root"]]
     return case["heap"]["classes"][nd["inst"]["cls"]] if _kind(nd) == "inst" else {}
@@ -735,7 +805,8 @@ def dist(case, obs):
         "plainSub": any(c.get("plainSub") for c in cfgs),
         "pre": cfgs[0].get("pre") if cfgs else None,
         "cbNames": cfgs[0].get("cbNames") if cfgs else None,
-        "localBases": cfgs[0].get("localBases") if cfgs else None,
+        "basePlace": _place_kind(heap["classes"][0]) if heap["classes"] else None,
+        "subKind": (cfgs[0].get("subKind") if cfgs[0].get("plainSub") or heap["classes"][0]["ovr"] else "own-repr") if cfgs else None,
         "same_named_callables": max([sum(1 for f in all_fields(c) if isinstance(f["repr"], dict)) for c in heap["classes"]
                                      if c.get("cfg", {}).get("cbNames", "field") != "field"] or [0]),
         "scoped": any(c["scopes"] for c in heap["classes"]),
